@@ -165,6 +165,32 @@ func c13Check(cs *drv.Case, fields []ref.Field) {
 		fail("write-bytes", "WriteUnknownFields = (%d, %v); bytes equal: %v (first diff at %d)", n, err, bytes.Equal(out, wire), firstDiff(out, wire))
 		return
 	}
+	// the same bytes reached through GetUnknownFields (struct value and pointer), then the buffer is reused
+	{
+		type holderA struct {
+			X              int
+			_unknownFields []byte
+		}
+		hb := append([]byte(nil), wire...)
+		ha := &holderA{X: 1, _unknownFields: hb}
+		g1, e1 := uf.GetUnknownFields(ha)
+		g2, e2 := uf.GetUnknownFields(*ha)
+		for k := range hb {
+			hb[k] = 0xFF
+		}
+		if e1 != nil || e2 != nil {
+			fail("getunknownfields-error", "GetUnknownFields failed: ptr=%v value=%v", e1, e2)
+			return
+		}
+		if d := diffFields(g1, want); d != "" {
+			fail("getunknownfields-tree", "tree from GetUnknownFields(ptr) differs (after the source buffer was reused) at %s", d)
+			return
+		}
+		if d := diffFields(g2, want); d != "" {
+			fail("getunknownfields-tree", "tree from GetUnknownFields(value) differs at %s", d)
+			return
+		}
+	}
 	// conversely: the expected (well-typed) tree survives write-then-convert
 	l2, err := uf.UnknownFieldsLength(want)
 	if err != nil || l2 != len(wire) {
@@ -189,7 +215,37 @@ func c13Check(cs *drv.Case, fields []ref.Field) {
 	cs.C.Obs("bytes compared", int64(len(wire)))
 }
 
+// two distinct struct types with the same name, the unknown-fields buffer at different positions
+func c13HolderOne(b []byte) interface{} {
+	type holder struct {
+		_unknownFields []byte
+		Other          []byte
+	}
+	return &holder{_unknownFields: b, Other: []byte{0x0b, 0, 9, 0, 0, 0, 1, 'x'}}
+}
+
+func c13HolderTwo(b []byte) interface{} {
+	type holder struct {
+		Other          []byte
+		_unknownFields []byte
+	}
+	return &holder{Other: []byte{0x0b, 0, 9, 0, 0, 0, 1, 'x'}, _unknownFields: b}
+}
+
 func monC13(c *drv.Ctx) {
+	c.Stage("same-named-holder-types", 4, true, func(cs *drv.Case) {
+		wire := ref.EncI32(ref.EncFieldBegin(nil, ref.I32, 5), int32(cs.Idx)+100)
+		for round := 0; round < 2; round++ {
+			for k, h := range []interface{}{c13HolderOne(wire), c13HolderTwo(wire)} {
+				got, err := uf.GetUnknownFields(h)
+				if err != nil || len(got) != 1 || got[0].ID != 5 || got[0].Value != int32(cs.Idx)+100 {
+					cs.Fail("getunknownfields-wrong-field", nil, M{"holder": k, "round": round, "err": errString(err), "got": fmt.Sprint(got)})
+					return
+				}
+			}
+		}
+		cs.Count(true, "holders", cs.Idx)
+	})
 	opts := func(cs *drv.Case) gen.TreeOpts {
 		return gen.TreeOpts{MaxDepth: 1 + cs.R.Intn(5), MaxElems: 5, Canonical: true, AnyFieldIDs: true, BigStrings: cs.R.Intn(30) == 0}
 	}
